@@ -5,6 +5,7 @@ import (
 	"fmt"
 	"sort"
 	"strconv"
+	"strings"
 	"time"
 
 	apierrors "k8s.io/apimachinery/pkg/api/errors"
@@ -14,6 +15,7 @@ import (
 	"k8s.io/apimachinery/pkg/types"
 	"k8s.io/apimachinery/pkg/util/validation/field"
 	k8stesting "k8s.io/client-go/testing"
+	clocktesting "k8s.io/utils/clock/testing"
 
 	configv1alpha1 "github.com/furiko-io/furiko/apis/config/v1alpha1"
 	execution "github.com/furiko-io/furiko/apis/execution/v1alpha1"
@@ -39,6 +41,7 @@ type rOp struct {
 	Forbid bool    `json:"forbid,omitempty"`
 	MaxC   int64   `json:"maxc,omitempty"`
 	Queued int64   `json:"queued,omitempty"`
+	Adv    int64   `json:"clock_advance,omitempty"` // seconds the controller clock advances before the op (not modelled: the reconciler must not depend on it)
 	Ann    *string `json:"ann,omitempty"`
 	Lbl    *string `json:"lbl,omitempty"`
 }
@@ -97,6 +100,7 @@ func (r *rRecorder) SkippedJobSchedule(_ context.Context, _ *execution.JobConfig
 }
 
 type rImpl struct {
+	clk     *clocktesting.FakeClock
 	sc      *SimContext
 	q       *SimQueue
 	ctrl    *reconciler.Controller
@@ -118,7 +122,8 @@ func (im *rImpl) boot() {
 }
 
 func newRImpl() *rImpl {
-	im := &rImpl{sc: NewSimContext(), store: &rStore{}, rec: &rRecorder{}}
+	im := &rImpl{sc: NewSimContext(), store: &rStore{}, rec: &rRecorder{}, clk: clocktesting.NewFakeClock(time.Unix(1700000130, 0))}
+	croncontroller.Clock = im.clk
 	im.sc.clientsets.FurikoMock().PrependReactor("create", "jobs", im.reactCreate)
 	im.boot()
 	return im
@@ -158,6 +163,9 @@ func (im *rImpl) reactCreate(action k8stesting.Action) (bool, runtime.Object, er
 
 func (im *rImpl) apply(o rOp) {
 	im.lastOut = 0
+	if o.Adv > 0 {
+		im.clk.Step(time.Duration(o.Adv) * time.Second)
+	}
 	switch o.Kind {
 	case "request":
 		im.q.Add("ns/" + o.Key)
@@ -275,6 +283,7 @@ func runRecon(ctx *RunCtx) *Result {
 		}
 		uidGen := map[string]int{}
 		curUID := map[string]string{}
+		requested := map[string]bool{} // "<jobconfig name>|<unix>"
 		monitor := func() {
 			// at most one Job per (owner UID, schedule time); identity of every Job
 			seen := map[string]string{}
@@ -294,9 +303,22 @@ func runRecon(ctx *RunCtx) *Result {
 				if ou == "" {
 					hit("C02/job-without-owner", fmt.Sprintf("Job %s has no JobConfig controller reference", j.Name))
 				}
+				if !requested[on+"|"+a] {
+					hit("C02/job-records-unrequested-schedule-time", fmt.Sprintf("Job %s of %s records schedule time %q, which was never requested", j.Name, on, a))
+				}
 			}
 		}
 		do := func(o rOp) {
+			if o.Kind == "request" {
+				if ix := strings.LastIndex(o.Key, "."); ix > 0 {
+					if t, err := strconv.Atoi(o.Key[ix+1:]); err == nil {
+						requested[o.Key[:ix]+"|"+strconv.Itoa(t)] = true
+					}
+				}
+			}
+			if (o.Kind == "work" || o.Kind == "fire") && c.Chance(1, 6) {
+				o.Adv = Pick(c, []int64{1, 30, 200, 400, 4000})
+			}
 			ops = append(ops, o)
 			im.apply(o)
 			obsTerms = append(obsTerms, im.obsTerm())
